@@ -366,6 +366,8 @@ theorem pushNone_LR : ∀ (b : B) (b' : B), pushNone b = .ok b' → LR b → LR 
     exact pushDefaultKAll_LR fs 1 fs' h3 hp
   | .dictionary p idx vals index, b', h, hp => by
     simp only [pushNone, ctx_ok] at h
+    split at h
+    · simp [fail] at h
     obtain ⟨idx', h1, h2⟩ := (bind_ok _ _ _).1 h
     cases h2
     simp only [LR] at hp ⊢
